@@ -38,7 +38,11 @@ def check(ctx):
     lc.crash_check(ctx, r.returncode, r.stderr, "live-c12wrap")
     w = vlib.read_nd(wr, quoted=False)[0]
     ctx.cov["wrap_run"] = w
-    if w["a_kind"] != "resp" or w["wrap_ms"] > 2700:
+    if w["a_kind"] == "resp" and w["b_kind"] == "timeout" and w["b_ms"] > w["b_tmo_ms"] + 700:
+        ctx.violation("own-timeout-lost-after-serial-wrap", "request B (time-out %d ms, never answered) was told 'time-out' only after %d ms - by the caller's last-resort deadline, "
+                      "not by its writer (e.g. the stale timer of request A, answered earlier under the same platform serial, removed B's record)" % (w["b_tmo_ms"], w["b_ms"]),
+                      {"kind": "live-c12wrap", "observed": w})
+    elif w["a_kind"] != "resp" or w["wrap_ms"] > 2700:
         ctx.cov["wrap_run_note"] = "wrap traffic too slow to race the 3 s timer (%d ms): not judged this run" % w["wrap_ms"]
     elif w["a_seq"] != w["b_seq"]:
         ctx.cov["wrap_run_note"] = "request B was not numbered like request A after 65536 frames (numbering is C06's claim): stale-timer race not set up this run"
